@@ -165,6 +165,8 @@ def search(ctx):
     F = ["bload", "bload2", "rwbload", "rwbload2", "rwbstore", "rwbstoret", "baload", "rwbaload", "rwbastore", "rwbastoret"]
     W = ["m", "u", "t", "me", "p", "a"]
     sites = G + [f + "." + w for f in F for w in W]
+    sites += [f + "." + w for f in ("bload", "rwbload", "baload", "rwbaload") for w in ("gi", "da", "ex")]
+    sites += ["bload2.ex", "rwbload2.ex"]
     for tgt in ("vk:np:0", "msl:pipe:0", "dx:np:0"):
         for s in sites:
             for t in ("{f f2}", "{h h2 f}", "{{f2 f} f}"):
